@@ -749,6 +749,27 @@ func ruleReplyFormat(c *Ctx) {
 	if f == nil {
 		return
 	}
+	// the number of lines is the length of the SPLIT text: every "len(x) - 1" in the function (last-line index, loop
+	// bound) is taken of the strings.Split result that is printed, not of the variadic argument (one element for every
+	// backend error, however many lines its message has: all but the first line would be dropped)
+	nLen := 0
+	allInstrs(f, func(in ssa.Instruction) {
+		bo, ok := in.(*ssa.BinOp)
+		if !ok || bo.Op != token.SUB {
+			return
+		}
+		call, isCall := stripConv(bo.X).(*ssa.Call)
+		if !isCall {
+			return
+		}
+		if bi, isB := call.Call.Value.(*ssa.Builtin); !isB || bi.Name() != "len" {
+			return
+		}
+		nLen++
+		d := describe(call.Call.Args[0])
+		R.Ob(c.siteKey(in, "line count is taken of the split text"), c.P.InstrPos(in), strings.HasPrefix(d, "strings.Split("), "the last-line index is computed from len("+d+"), not from the text split into lines: a multi-line message passed as one argument is cut after its first line")
+	})
+	R.Ob("(*Conn).writeResponse/line count found", c.P.Pos(f.Pos()), nLen >= 1, "no len(…)-1 computation found in writeResponse")
 	loops := findLoops(f)
 	inLoop := func(b *ssa.BasicBlock) bool {
 		for _, li := range loops {
